@@ -241,7 +241,7 @@ def hostile_reply(rnd, index, cnt, seg, hi=250):
 def hostile_case(cid, rnd):
     entry = rnd.choice(["sdo_read_u32", "sdo_read_arr16", "sdo_read_arr16", "sdo_read_str", "sdo_read_str", "sdo_read_array", "sdo_write", "sdo_info_list"])
     index = ENTRIES[entry][0]
-    mbx = rnd.choice([16, 17, 20, 24, 32, 64, 64, 128, 1024])
+    mbx = rnd.choice([16, 17, 20, 24, 32, 64, 64, 128, 1024, 6, 8, 10, 12, 13, 14, 15])
     kind = rnd.choice(["fields", "fields", "seg_fields", "seg_fields", "seg_fields", "random", "truncated", "endless"])
     replies = []
     hi = 127 if entry == "sdo_read_str" else 250          # strings: only the ASCII range decodes
@@ -307,7 +307,7 @@ def project_hostile(c):
             m["bytes"] = (m["bytes"] + [case.get("fill", 165)] * max(0, case["mailbox_size"] - len(m["bytes"])))[:case["mailbox_size"]]
     dest = dest_rec(read_as) if read_as else dict(kind="exact", n=4)
     bound = 250000 if entry == "sdo_info_list" else 600 * (dest["n"] + 20)
-    if len(log) > 400:
+    if len(log) > 400 or case["mailbox_size"] < 16:       # the model client looks at 16 bytes of every response
         log, conform = [], False
     # a string destination only takes valid UTF-8: replies with bytes outside ASCII in their data are left to the monitor
     if entry == "sdo_read_str" and any(b >= 128 for m in log if m["dir"] == "out" for b in m["bytes"][9:]):
